@@ -12,6 +12,7 @@
 
 #include <chrono>
 #include <atomic>
+#include <thread>
 #include <functional>
 #include <vector>
 #include <typeinfo>
@@ -269,6 +270,9 @@ namespace sqf::runtime
 
         private:
             std::atomic<bool> m_evaluate_halt;
+            // the thread that holds m_evaluate_halt: an expression that is evaluated may itself evaluate one
+            // (__EVAL inside a text that an evaluated expression preprocesses)
+            std::atomic<std::thread::id> m_evaluate_owner;
 
             void perform_evaluate()
             {
@@ -351,6 +355,7 @@ namespace sqf::runtime
             m_last_breakpoint_hit(~((size_t)0), {}),
             m_default_scope_key("default"),
             m_evaluate_halt(false),
+            m_evaluate_owner(std::thread::id()),
             m_configuration(config),
             m_runtime_timestamp(std::chrono::system_clock::now()),
             m_run_timestamp(m_runtime_timestamp),
